@@ -153,7 +153,11 @@ func genC20(t *rapid.T) any {
 			switch kindDraw {
 			case 0, 1, 2:
 				k := rapid.SampledFrom([]string{"k1", "k2", "k3"}).Draw(t, il+".key")
-				q.Items = append(q.Items, C20Item{Kind: "set", Key: k, Val: genC20Value(t, k, il+".val")})
+				it := C20Item{Kind: "set", Key: k, Val: genC20Value(t, k, il+".val")}
+				if rapid.IntRange(0, 3).Draw(t, il+".setalias") == 0 {
+					it.Alias = fmt.Sprintf("sv%d", len(q.Items)) // SETVAR(..) AS name: still no column
+				}
+				q.Items = append(q.Items, it)
 			case 3, 4, 5:
 				kind := "get"
 				if rapid.IntRange(0, 4).Draw(t, il+".insub") == 0 {
@@ -374,7 +378,11 @@ func (q *C20Query) sql() string {
 	for _, it := range q.Items {
 		switch it.Kind {
 		case "set":
-			parts = append(parts, "SETVAR("+sq.StrLit(it.Key)+", "+sq.Render(it.Val, nil)+")")
+			p := "SETVAR(" + sq.StrLit(it.Key) + ", " + sq.Render(it.Val, nil) + ")"
+			if it.Alias != "" {
+				p += " AS " + it.Alias
+			}
+			parts = append(parts, p)
 		case "caseset":
 			parts = append(parts, "CASE WHEN "+sq.Render(it.Cond, nil)+" THEN SETVAR("+sq.StrLit(it.Key)+", "+sq.Render(it.Val, nil)+") ELSE SETVAR("+sq.StrLit(it.Key2)+", "+sq.Render(it.Val2, nil)+") END")
 		case "get":
@@ -694,7 +702,7 @@ func init() {
 			"an optional WHERE on plain columns and 1-6 select items out of SETVAR(k, const | column | column+const | GETVAR(k') | GETVAR(k') op const | " +
 			"GETVAR(k')+column | NULL | CONCAT(GETVAR(k), column)), GETVAR(k) AS alias (incl. a key that is never set; a fifth of them inside a scalar subquery over dual) and plain columns; a quarter of the queries are wrapped in a derived table or a CTE (variables read and written inside the nested query), over keys k1..k3; a sixth are `<arm> UNION ALL <arm>` with flat or derived arms (left arm evaluated first); a quarter of the histories hold int64 values beyond 2^53 in a register (column b, key kb); histories of flat queries also construct all queries before the first runs, execute an earlier Query object again, and let the caller write into the map between queries. " +
 			"Oracle: a sequential register model evaluated row by row on the rows passing WHERE, item by item: every GETVAR column equals the model's " +
-			"value at that point (NULL if unset), SETVAR adds no column, after each Exec the caller's map deep-equals the model, the next query " +
+			"value at that point (NULL if unset), SETVAR adds no column (a quarter of the SETVAR items carry an alias), after each Exec the caller's map deep-equals the model, the next query " +
 			"starts from that state. Non-trivial: >=2 queries, >=1 SETVAR and GETVAR, and a GETVAR that reads a value written by an earlier row or query.",
 		Assumptions: []string{
 			"variables are enabled through WithVars with a non-nil map (statement: 'with variables enabled')",
